@@ -79,7 +79,7 @@ fn check_seq(s: &Seq, groups: &[usize], obj: &Obj, who: &str) -> Result<(), (Str
 fn helper_case(r: &mut Rng, kind: u64) -> Case {
     // frames: (data, fragment size)
     let pool_fs = |r: &mut Rng, len: usize| -> u32 { match r.below(8) { 0 => 0, 1 => 1, 2 => 2, 3 => len as u32, 4 => len as u32 + 1, 5 => len.saturating_sub(1) as u32, 6 => r.range(1, 9) as u32, _ => r.range(1, 40) as u32 } };
-    let data = |r: &mut Rng| -> Vec<u8> { let n = match r.below(12) { 0 => 0, 1 => 1, 2 => 2, _ => r.range(1, 24) } as usize; (0..n).map(|_| r.range(1, 255) as u8).collect() };
+    let data = |r: &mut Rng| -> Vec<u8> { let n = match r.below(60) { 0 => 0, 1..=5 => 1, 6..=10 => 2, _ => r.range(1, 24) } as usize; (0..n).map(|_| r.range(1, 255) as u8).collect() };
     let (frames, name): (Vec<(Vec<u8>, u32)>, &str) = match kind {
         0 => ((0..r.range(1, 16)).map(|_| (data(r), 0)).collect(), "encapsulate"),
         1 => { let d = data(r); let fs = pool_fs(r, d.len()); (vec![(d, fs)], "single") }
@@ -187,13 +187,15 @@ pub fn cases(ctx: &Ctx) -> Vec<Case> {
     out.push(extract_case(&mut r, Some((vec![0, 52, 84], vec![16, 20, 24, 36], Some(3)))));   // the exact table for it
     for w in 0..6 { out.push(trans_case(&mut Rng::new(1000 + w), w as usize)); }
     {
-        // 2^24 + 1 bytes in fragments of 2: the f32 ceiling lost the last byte (checked by the oracle only)
+        // 2^24 + 1 bytes in fragments of 2^20: the f32 ceiling counted 16 fragments and lost the last byte
+        // (the original witness, fragments of 2, behaves the same but costs 8M allocations); oracle only
         let n = (1usize << 24) + 1;
-        let s = catch(|| seq_of(encapsulate_single_frame(vec![7u8; n], 2)));
-        let oracle = match &s { Some(s) if s.1.len() == (1 << 23) + 1 && s.1.iter().map(|f| f.len()).sum::<usize>() == n + 1 && s.1.last() == Some(&vec![7u8, 0]) => Oracle::Holds,
-            Some(s) => Oracle::Fails { class: "FragmentsPreserve".into(), detail: format!("2^24+1 bytes in fragments of 2: {} fragments holding {} bytes", s.1.len(), s.1.iter().map(|f| f.len()).sum::<usize>()) },
+        let fs = 1u32 << 20;
+        let s = catch(|| seq_of(encapsulate_single_frame(vec![7u8; n], fs)));
+        let oracle = match &s { Some(s) if s.1.len() == 17 && s.1.iter().all(|f| f.len() == fs as usize) && s.1[16][0] == 7 && s.1[16][1..].iter().all(|&b| b == 0) && s.1[..16].iter().all(|f| f.iter().all(|&b| b == 7)) => Oracle::Holds,
+            Some(s) => Oracle::Fails { class: "FragmentsPreserve".into(), detail: format!("2^24+1 bytes in fragments of 2^20: {} fragments holding {} bytes", s.1.len(), s.1.iter().map(|f| f.len()).sum::<usize>()) },
             None => Oracle::Fails { class: "HelperPanic".into(), detail: "panic".into() } };
-        out.push(Case { coq: String::new(), desc: json!({"bucket": "corpus:2^24+1-bytes", "frame_len": n, "fragment_size": 2}), key: "big".into(), oracle });
+        out.push(Case { coq: String::new(), desc: json!({"bucket": "corpus:2^24+1-bytes", "frame_len": n, "fragment_size": fs}), key: "big".into(), oracle });
     }
     let mut i = 0usize;
     while out.len() < ctx.n {
